@@ -92,54 +92,3 @@ pub proof fn lemma_npo2_least(n: nat, p: nat)
         lemma_npo2_least((n + 1) / 2, p / 2);
     }
 }
-
-// ----------------------------------------------------------------------
-// Shift / mask forms of the same arithmetic (proved by the bit-vector back end).  They are brought into scope with
-// `broadcast use group_bitops` in the integer helper functions so that a rewrite of `/ 2` as `>> 1`, `* 2` as `<< 1`,
-// `% 2` as `& 1` ... keeps verifying: the contracts talk about values, not about the operator used.
-// ----------------------------------------------------------------------
-pub broadcast proof fn lemma_usize_shr1(x: usize) ensures #[trigger] (x >> 1) == x / 2 { assert((x >> 1) == x / 2) by (bit_vector); }
-pub broadcast proof fn lemma_usize_shr2(x: usize) ensures #[trigger] (x >> 2) == x / 4 { assert((x >> 2) == x / 4) by (bit_vector); }
-pub broadcast proof fn lemma_usize_shr3(x: usize) ensures #[trigger] (x >> 3) == x / 8 { assert((x >> 3) == x / 8) by (bit_vector); }
-pub broadcast proof fn lemma_usize_shr4(x: usize) ensures #[trigger] (x >> 4) == x / 16 { assert((x >> 4) == x / 16) by (bit_vector); }
-pub broadcast proof fn lemma_usize_shr8(x: usize) ensures #[trigger] (x >> 8) == x / 256 { assert((x >> 8) == x / 256) by (bit_vector); }
-pub broadcast proof fn lemma_usize_and1(x: usize) ensures #[trigger] (x & 1) == x % 2 { assert((x & 1) == x % 2) by (bit_vector); }
-pub broadcast proof fn lemma_usize_and7(x: usize) ensures #[trigger] (x & 7) == x % 8 { assert((x & 7) == x % 8) by (bit_vector); }
-pub broadcast proof fn lemma_usize_and255(x: usize) ensures #[trigger] (x & 255) == x % 256 { assert((x & 255) == x % 256) by (bit_vector); }
-pub broadcast proof fn lemma_usize_shl1(x: usize) requires x * 2 <= usize::MAX ensures #[trigger] (x << 1) == x * 2 {
-    let y: u64 = x as u64;
-    assert(y <= 0x7fff_ffff_ffff_ffffu64 ==> (y << 1) == y * 2) by (bit_vector);
-    assert((x << 1) == ((y << 1) as usize)) by (bit_vector) requires y == x as u64;
-}
-pub broadcast proof fn lemma_usize_shl3(x: usize) requires x * 8 <= usize::MAX ensures #[trigger] (x << 3) == x * 8 {
-    let y: u64 = x as u64;
-    assert(y <= 0x1fff_ffff_ffff_ffffu64 ==> (y << 3) == y * 8) by (bit_vector);
-    assert((x << 3) == ((y << 3) as usize)) by (bit_vector) requires y == x as u64;
-}
-/// `x & (x - 1) == 0` is the usual bit trick for "x is a power of two" (x > 0)
-pub broadcast proof fn lemma_usize_pow2_trick(x: usize) requires x > 0 ensures #[trigger] (x & ((x - 1) as usize)) == 0 <==> is_pow2(x as nat)
-    decreases x
-{
-    if x == 1 { assert(1usize & 0usize == 0) by (bit_vector); }
-    else {
-        let h: usize = x / 2;
-        lemma_usize_pow2_trick(h);
-        if x % 2 == 0 {
-            assert(x % 2 == 0 && x > 1 && h == x / 2 ==> ((x & ((x - 1) as usize)) == 0 <==> (h & ((h - 1) as usize)) == 0)) by (bit_vector);
-        } else {
-            assert(x % 2 == 1 && x > 1 ==> (x & ((x - 1) as usize)) != 0) by (bit_vector);
-        }
-    }
-}
-pub broadcast proof fn lemma_u32_shr3(x: u32) ensures #[trigger] (x >> 3) == x / 8 { assert((x >> 3) == x / 8) by (bit_vector); }
-pub broadcast proof fn lemma_u32_shr1(x: u32) ensures #[trigger] (x >> 1) == x / 2 { assert((x >> 1) == x / 2) by (bit_vector); }
-pub broadcast proof fn lemma_u8_shr4(x: u8) ensures #[trigger] (x >> 4) == x / 16 { assert((x >> 4) == x / 16) by (bit_vector); }
-pub broadcast proof fn lemma_u8_and15(x: u8) ensures #[trigger] (x & 15) == x % 16 { assert((x & 15) == x % 16) by (bit_vector); }
-pub broadcast proof fn lemma_u8_shl4_or(h: u8, l: u8) requires h < 16, l < 16 ensures #[trigger] ((h << 4) | l) == h * 16 + l {
-    assert(h < 16 && l < 16 ==> ((h << 4) | l) == h * 16 + l) by (bit_vector);
-}
-pub broadcast group group_bitops {
-    lemma_usize_shr1, lemma_usize_shr2, lemma_usize_shr3, lemma_usize_shr4, lemma_usize_shr8,
-    lemma_usize_and1, lemma_usize_and7, lemma_usize_and255, lemma_usize_shl1, lemma_usize_shl3, lemma_usize_pow2_trick,
-    lemma_u32_shr3, lemma_u32_shr1, lemma_u8_shr4, lemma_u8_and15, lemma_u8_shl4_or,
-}
